@@ -163,7 +163,7 @@ def legal_link(tasks, s, p):
 def gen_case(rng, direction, n, cid, opts=None):
     opts = opts or {}
     tasks, roots = gen_structure(rng, n, opts.get("shape"))
-    ids = rng.sample(range(1, 3 * n + 2), n) if rng.random() < 0.7 else list(range(1, n + 1))
+    ids = rng.sample(range(-1, 3 * n + 2), n) if rng.random() < 0.7 else list(range(0, n))    # id 0 is an id like any other
     # project start / end and clock
     base = rng.choice([7, 8, 9, 10, 11, 12, 13])             # day number: Monday..Sunday of week 2
     if direction == "bwd":
@@ -226,6 +226,16 @@ def gen_case(rng, direction, n, cid, opts=None):
         t["fstart"] = MISSING
         t["fend"] = MISSING
         if t["ms"]:
+            # rarely combined: a milestone that carries an estimate, or dates typed in by the user - it still has
+            # zero duration and is placed by its prerequisites
+            if rng.random() < 0.3:
+                t["est"] = q4(rng.choice([0, 4, 8, 16]))
+                if rng.random() < 0.4:
+                    t["spent"] = q4(rng.choice([0, 4, 40]))
+            if direction == "fwd" and rng.random() < 0.3:
+                t["fstart"] = pstart + rng.choice([-3 * DAY, 0, DAY + 480, 3 * DAY, 9 * DAY])
+                if rng.random() < 0.5:
+                    t["fend"] = t["fstart"] + rng.choice([0, DAY])
             continue
         r = rng.random()
         if r < 0.1:
@@ -419,7 +429,7 @@ def extract(I, sched, numbers):
     """result record R from a Schedule object"""
     n = len(I["tasks"])
     R = {"out": "ok", "start": [MISSING] * n, "end": [MISSING] * n, "est": [NOQ] * n, "spent": [NOQ] * n,
-         "wstart": MISSING, "wend": MISSING, "rows": [], "inexact": False, "overflow": False}
+         "wstart": MISSING, "wend": MISSING, "rows": [], "inexact": False, "overflow": False, "foreign": 0}
     byid = {}
     for t in sched.schedule.tasks:
         byid.setdefault(t.id, t)
@@ -442,11 +452,20 @@ def extract(I, sched, numbers):
     rname = {rname_of(r["name"]): k for k, r in enumerate(I["resources"], start=1)}
     robj = {id(r): rname.get(r.name, 0) for r in sched.resources}
     allrows = sched.resource_usage.rows()
-    R["overflow"] = len(allrows) > MAXROWS
-    for row in allrows[:(60 if R["overflow"] else MAXROWS)]:
+    # no generated input needs more than 13 rows per task (measured); 40 per task is "longer than any input needs"
+    maxrows = min(MAXROWS, 40 * n + 40)
+    R["overflow"] = len(allrows) > maxrows
+    for row in allrows[:(60 if R["overflow"] else maxrows)]:
         m, ex = tmin(row.date)
+        tnum = idx_of.get(id(row.task), 0)
+        if id(row.task) not in idx_of and not str(getattr(row.task, "name", "") or "").startswith("ext"):
+            # a row for an object that is neither a task of the result nor one of the harness's outside
+            # predecessors (left over from another calculation, say): what a reader of the report sees is work
+            # booked for the task with that id - it counts for that task, and is reported as a foreign row
+            tnum = num_of_id.get(getattr(row.task, "id", None), 0)
+            R["foreign"] += 1
         R["rows"].append({"r": robj.get(id(row.resource), 0), "d": m // DAY if m % DAY == 0 else -999,
-                          "t": idx_of.get(id(row.task), 0), "u": cal.to_q(row.units)})
+                          "t": tnum, "u": cal.to_q(row.units)})
     return R
 
 
@@ -711,7 +730,17 @@ def run(tier, seed, log):
     log("sched: %d calc inputs executed (%.0fs)" % (len(cases), time.time() - t0))
     jobs = 8
     per = max(100, min(2500, -(-len(cases) // jobs)))
-    batches = [cases[i:i + per] for i in range(0, len(cases), per)]
+    # a batch is one JSON document read by one TLC: bounded by number of cases AND by ledger volume
+    batches, cur, weight = [], [], 0
+    for c in cases:
+        wgt = len(c["R"]["rows"]) + sum(len(r.get("rows", [])) for r in c.get("rep", []))
+        if cur and (len(cur) >= per or weight + wgt > 60000):
+            batches.append(cur)
+            cur, weight = [], 0
+        cur.append(c)
+        weight += wgt
+    if cur:
+        batches.append(cur)
     # conformance with the intended design (Forward.tla) runs beside the judge: DRIFT, informational
     import threading
     box = {}
